@@ -39,7 +39,16 @@ func isHarnessFrame(f string) bool {
 	if strings.HasPrefix(f, "k8s.io/client-go/testing.") || strings.Contains(f, "/fake.") || strings.Contains(f, "/fake/") {
 		return true
 	}
+	// the fake watch channel of the object tracker (panics with "channel full" when an informer lags a burst)
+	if strings.HasPrefix(f, "k8s.io/apimachinery/pkg/watch.(*RaceFreeFakeWatcher)") || strings.HasPrefix(f, "k8s.io/apimachinery/pkg/watch.(*FakeWatcher)") {
+		return true
+	}
 	return false
+}
+
+// isGalaxyFrame: code under test, i.e. the galaxy module without its generated fake clientsets.
+func isGalaxyFrame(f string) bool {
+	return strings.HasPrefix(f, galaxyPrefix) && !strings.Contains(f, "/fake.") && !strings.Contains(f, "/fake/")
 }
 
 // goroutineBlock is one goroutine of a traceback.
@@ -149,7 +158,7 @@ func classifyDumps(stderr string) dumpClass {
 		}
 		var galaxy []string
 		for _, f := range above {
-			if strings.HasPrefix(f, galaxyPrefix) {
+			if isGalaxyFrame(f) {
 				galaxy = append(galaxy, f)
 			}
 		}
@@ -274,7 +283,7 @@ func parseCrash(stderr string) crashInfo {
 		if ci.origin == "" && !isRuntimeFrame(f) {
 			ci.origin = f
 		}
-		if ci.topGalaxy == "" && strings.HasPrefix(f, galaxyPrefix) {
+		if ci.topGalaxy == "" && isGalaxyFrame(f) {
 			ci.topGalaxy = f
 		}
 	}
@@ -311,7 +320,7 @@ func capturePanic(r interface{}, stack []byte) *panicInfo {
 			if pi.origin == "" && !isRuntimeFrame(fn) {
 				pi.origin = fn
 			}
-			if pi.topGalaxy == "" && strings.HasPrefix(fn, galaxyPrefix) {
+			if pi.topGalaxy == "" && isGalaxyFrame(fn) {
 				pi.topGalaxy = fn
 			}
 		}
